@@ -6,6 +6,7 @@ reports (exit 0) is printed as MISSED. Works on copies of this directory ("lanes
 and /verif/evidence are left alone.
 
 usage: seed_regress.py [--lanes N] [--all-checks] [--out FILE] [seed names...]
+A seed that is not stored yet is given as  name=/tmp/worktree:C01,C02  (patch in /tmp/worktree/SEED/patch.diff).
 """
 import json, os, shutil, subprocess, sys, threading, queue, time
 
@@ -27,6 +28,7 @@ while args:
         names.append(a)
 if not names:
     names = sorted(os.listdir(os.path.join(here, "seeded")))
+out = os.path.abspath(out)
 os.makedirs(os.path.dirname(out), exist_ok=True)
 scratch = f"/tmp/seed-regress-{os.getpid()}"
 os.makedirs(scratch)
@@ -53,10 +55,17 @@ def lane(k):
             name = work.get_nowait()
         except queue.Empty:
             break
-        meta = json.load(open(f"{here}/seeded/{name}/meta.json"))
-        checks = ALL if all_checks else meta["caught_by_quick"]
+        if "=" in name:
+            name, rest = name.split("=", 1)
+            src, cs = rest.split(":")
+            patch = f"{src}/SEED/patch.diff"
+            checks = cs.split(",")
+        else:
+            meta = json.load(open(f"{here}/seeded/{name}/meta.json"))
+            patch = f"{here}/seeded/{name}/patch.diff"
+            checks = ALL if all_checks else meta["caught_by_quick"]
         sh(f"git -C /repo worktree remove --force {wt}; rm -rf {wt}")
-        r = sh(f"git -C /repo worktree add --detach {wt} HEAD && git -C {wt} apply {here}/seeded/{name}/patch.diff")
+        r = sh(f"git -C /repo worktree add --detach {wt} HEAD && git -C {wt} apply {patch}")
         if r.returncode != 0:
             with lock:
                 results.append((name, "-", "PATCH-FAILS", r.stderr.strip()[-200:]))
